@@ -70,6 +70,8 @@ pub fn judge_line(
             rep.violate_key(
                 format!("{pid}:line-adjacent-to-deletion-attributed-to-deleter"),
                 format!("{ctx}: {source} filler {path}:{lineno} {content:?} adjacent to a whole-line deletion by {}, reported {}", fmt_actor(obs), fmt_actor(obs)), &key_of(content));
+        } else if obs.is_ai() && !e.writers.contains(&obs) && w.model.wrote_line_containing(content, obs) {
+            rep.count("filler_credited_to_writer_of_a_line_containing_its_text", 1);
         } else if obs.is_ai() && !e.writers.contains(&obs) {
             rep.violate_key(
                 format!("{pid}:filler-attributed-to-non-writer"),
